@@ -42,6 +42,8 @@ Post-fault behaviour (every fault must be observable through the pipes, the VM h
                      EXTRA message (the correct reply follows); mid_reply: it replaces the second half of the reply.
 
 Other switches
+  NLVERIF_COP_SIZED=error|result:<n>:<k>  the k-th reply is a well-formed FFI_ERROR with n bytes of text / FFI_RESULT
+                                    with an n byte string (reply-size dimension; not a fault)
   NLVERIF_COP_SECOND=healthy|same   behaviour of the 2nd, 3rd .. instance of one case (relaunch); default healthy
   NLVERIF_COP_STUBBORN=1            ignore SHUTDOWN and EOF (only a signal removes the process; gives up after 40 s)
   NLVERIF_COP_CHUNK=<n>             write everything in pieces of n bytes, 1 ms apart (legal, merely slow peer)
@@ -116,6 +118,10 @@ if spec and spec != "none" and (inst == 1 or env.get("NLVERIF_COP_SECOND", "heal
         log("bad-fault-spec " + spec)
         os._exit(99)
 fired = False
+SIZED = None          # NLVERIF_COP_SIZED=error|result:<nbytes>:<k>: well-formed k-th reply of that size (not a fault)
+if env.get("NLVERIF_COP_SIZED"):
+    _m, _n, _k = env["NLVERIF_COP_SIZED"].split(":")
+    SIZED = (_m, int(_n), int(_k))
 served = 0            # replies written completely by this instance
 
 try:
@@ -369,6 +375,18 @@ def main():
             log("req %d %s" % (nreq, "known" if value is not None else "UNKNOWN " + payload.hex()))
             if value is None:
                 send(ERROR, b"fake_nano_cop: request not in table")
+                continue
+            if SIZED and inst == 1 and nreq == SIZED[2]:
+                # a WELL-FORMED reply of a chosen size: error text / string result of n bytes
+                n = SIZED[1]
+                text = bytes(97 + (i % 26) for i in range(n))
+                log("fault-fired sized-%s:%d:%d" % SIZED)
+                if SIZED[0] == "error":
+                    send(ERROR, text)
+                else:
+                    send(RESULT, b"\x05" + struct.pack("<I", n) + text)
+                served = nreq
+                log("reply %d" % nreq)
                 continue
             if hit("pre_reply", nreq):
                 fire(RESULT, value, pending=True)
